@@ -78,12 +78,31 @@ structure ChV2 where
 /-- `ChordsV2::next_coord`: the coordinate handed out, and the counter afterwards -/
 def nextCoordAfter (c : Nat) : Nat := if c + 1 > KEY_MAX + CHV2_COORDS then KEY_MAX + 1 else c + 1
 
-/-- `get_active_chord` -/
-def getActiveChord (cch : ChordV2) (since coord : Nat) (releaseFound : Bool) : ActiveChord :=
+/-- the loop of `ChordsV2::next_coord` (fix PENDING-1): a coordinate that an active chord still holds is
+skipped - the coordinates wrap around after 50 activations, and a release at a shared coordinate would
+release the older chord too. With at most 10 active chords the loop ends within 11 rounds; the fuel is
+the number of coordinates. -/
+def freeCoordFrom (active : List ActiveChord) : Nat → Nat → Nat
+  | 0, c => c
+  | fuel + 1, c => if active.all (fun a => a.coordinate != c) then c else freeCoordFrom active fuel (nextCoordAfter c)
+
+/-- `ChordsV2::next_coord`: the coordinate handed out when the counter stands at `c` -/
+def freeCoord (active : List ActiveChord) (c : Nat) : Nat := freeCoordFrom active CHV2_COORDS c
+
+/-- whether the released key is a participant of the chord -/
+def relHits (released : Option Nat) (cch : ChordV2) : Bool :=
+  match released with
+  | some j => cch.keys.contains j
+  | none => false
+
+/-- `get_active_chord`; `released` = the first queued release of a key pressed in the queue
+(`relevant_release`). Fix PENDING-3: a first-release chord is created already released only when that
+key is one of its participants. -/
+def getActiveChord (cch : ChordV2) (since coord : Nat) (released : Option Nat) : ActiveChord :=
   { coordinate := coord,
     remaining := if cch.release == .onLastRelease then cch.keys.take SMOL_Q_LEN else [],
     keys := cch.keys, action := cch.action,
-    status := if releaseFound && cch.release == .onFirstRelease then .unreadReleased else .unread,
+    status := if relHits released cch && cch.release == .onFirstRelease then .unreadReleased else .unread,
     delay := since }
 
 /-- `self.active_chords.push(ach)` (heapless Vec of 10): `.error` = the push was refused; the callers
@@ -180,15 +199,15 @@ def drainReleases : List Queued → Nat → List ActiveChord → List Queued →
         | .ok (k, achs, dq) => .ok (qd :: k, achs, dq)
 
 /-- the first loop of `process_presses`: pressed keys in order, up to the first release of one of
-them (`relevant_release_found`) -/
-def collectPresses : List Queued → List Nat → Except Crash (List Nat × Bool)
-  | [], ps => .ok (ps, false)
+them (`relevant_release`: the released key) -/
+def collectPresses : List Queued → List Nat → Except Crash (List Nat × Option Nat)
+  | [], ps => .ok (ps, none)
   | qd :: rest, ps =>
     match qd.ev with
     | .press c =>
       -- presses beyond the 16 slots of the heapless Vec are not recorded (a `debug_assert` before the fix)
       if ps.length ≥ SMOL_Q_LEN then collectPresses rest ps else collectPresses rest (ps ++ [c.2])
-    | .release c => if ps.contains c.2 then .ok (ps, true) else collectPresses rest ps
+    | .release c => if ps.contains c.2 then .ok (ps, some c.2) else collectPresses rest ps
 
 /-- loop state of `process_presses` -/
 structure PP where
@@ -216,7 +235,7 @@ def ppCands (possible : List ChordV2) (layer : Nat) (st : PP) (press : Nat) : Li
     (f.take SMOL_Q_LEN, f.length, minPending f)
 
 /-- one iteration of `for press in presses` -/
-def ppStep (possible : List ChordV2) (layer since : Nat) (relFound : Bool) (minIdle : Nat) (st : PP) (press : Nat) :
+def ppStep (possible : List ChordV2) (layer since : Nat) (relFound : Option Nat) (minIdle : Nat) (st : PP) (press : Nat) :
     Except Crash PP :=
   if st.done then .ok st else
   let acc := st.acc ++ [press]
@@ -228,8 +247,8 @@ def ppStep (possible : List ChordV2) (layer since : Nat) (relFound : Bool) (minI
   let fin (st : PP) : PP := { st with ticksUntil := minTimeout - since, prevCount := some count }
   match count with
   | 1 =>
-    let coord := st.nextCoord
-    let st := { st with nextCoord := nextCoordAfter st.nextCoord }
+    let coord := freeCoord st.active st.nextCoord
+    let st := { st with nextCoord := nextCoordAfter coord }
     match cands.head? with
     | none => .error (.indexOOB "chord_candidates[0]")
     | some cch =>
@@ -243,14 +262,14 @@ def ppStep (possible : List ChordV2) (layer since : Nat) (relFound : Bool) (minI
     let st := { st with acc, cands := [] }
     match (possible.filter (enabledOn layer)).find? (exactMatch acc) with
     | some cch =>
-      let coord := st.nextCoord
+      let coord := freeCoord st.active st.nextCoord
       match pushActive st.active (getActiveChord cch since coord relFound) with
-      | .error _ => .ok { st with nextCoord := nextCoordAfter st.nextCoord, ticksToIgnore := minIdle, done := true }
-      | .ok a => .ok { st with nextCoord := nextCoordAfter st.nextCoord, active := a, done := true }
+      | .error _ => .ok { st with nextCoord := nextCoordAfter coord, ticksToIgnore := minIdle, done := true }
+      | .ok a => .ok { st with nextCoord := nextCoordAfter coord, active := a, done := true }
     | none => .ok { st with ticksToIgnore := minIdle, done := true }
   | _ => .ok (fin st)
 
-def ppLoop (possible : List ChordV2) (layer since : Nat) (relFound : Bool) (minIdle : Nat) :
+def ppLoop (possible : List ChordV2) (layer since : Nat) (relFound : Option Nat) (minIdle : Nat) :
     List Nat → PP → Except Crash PP
   | [], st => .ok st
   | p :: rest, st =>
@@ -261,14 +280,15 @@ def ppLoop (possible : List ChordV2) (layer since : Nat) (relFound : Bool) (minI
 /-- the block after the loop of `process_presses`: when the loop activated nothing and the window has
 closed (or a participant was already released), activate the chord that matches the accumulated
 presses exactly, else start the cool-down. `prevLen` = `prev_active_chords_len`. -/
-def ppFinal (possible : List ChordV2) (layer since : Nat) (relFound : Bool) (minIdle prevLen : Nat) (st : PP) : PP :=
-  if st.active.length == prevLen && (st.ticksUntil == 0 || relFound) then
+def ppFinal (possible : List ChordV2) (layer since : Nat) (relFound : Option Nat) (minIdle prevLen : Nat) (st : PP) : PP :=
+  if st.active.length == prevLen && (st.ticksUntil == 0 || relFound.isSome) then
     let pool := if st.cands.length ≥ SMOL_Q_LEN then possible else st.cands
     match (pool.filter (enabledOn layer)).find? (exactMatch st.acc) with
     | some cch =>
-      match pushActive st.active (getActiveChord cch since st.nextCoord relFound) with
-      | .error _ => { st with ticksToIgnore := minIdle, nextCoord := nextCoordAfter st.nextCoord }
-      | .ok a => { st with active := a, nextCoord := nextCoordAfter st.nextCoord }
+      let coord := freeCoord st.active st.nextCoord
+      match pushActive st.active (getActiveChord cch since coord relFound) with
+      | .error _ => { st with ticksToIgnore := minIdle, nextCoord := nextCoordAfter coord }
+      | .ok a => { st with active := a, nextCoord := nextCoordAfter coord }
     | none => { st with ticksToIgnore := minIdle }
   else st
 
@@ -298,16 +318,22 @@ def processPresses (s : ChV2) (layer : Nat) : Except Crash ChV2 :=
           let st := ppFinal possible layer since relFound s.cfg.minIdle s.active.length st
           .ok { s with queue := if st.active.length > s.active.length then ppRetain s.queue st.acc else s.queue,
                        active := st.active, ticksToIgnore := st.ticksToIgnore,
-                       ticksUntilChange := st.ticksUntil, nextCoord := st.nextCoord }
+                       -- fix PENDING-4: an activation ends the wait for the chord's timeout
+                       ticksUntilChange := if st.active.length > s.active.length then 0 else st.ticksUntil,
+                       nextCoord := st.nextCoord }
+
+/-- the events of row 0 (real inputs); the cool-down loop of `drain_inputs` looks at these only
+(`Event::Release(0, j)`, fix PENDING-2: a virtual key's index is not a key code) -/
+def realInputs (q : List Queued) : List Queued := q.filter fun qd => qd.ev.coord.1 == 0
 
 /-- `ChordsV2::drain_inputs` -/
 def drainInputs (s : ChV2) (dq : List Queued) (layer : Nat) : Except Crash (ChV2 × List Queued) :=
   if s.ticksToIgnore > 0 then
-    .ok ({ s with queue := [], active := applyReleases s.queue s.active }, drainExtend dq s.queue)
+    .ok ({ s with queue := [], active := applyReleases (realInputs s.queue) s.active }, drainExtend dq s.queue)
   else if s.ticksUntilChange > 0 && s.prevActiveLayer == layer && s.prevQueueLen == s.queue.length then
     .ok ({ s with ticksUntilChange := s.ticksUntilChange - 1 }, dq)
   else
-    let s := { s with ticksUntilChange := 0, prevActiveLayer := layer, prevQueueLen := s.queue.length % 256 }
+    let s := { s with ticksUntilChange := 0, prevActiveLayer := layer }
     match drainVirtualKeys s.queue dq with
     | .error c => .error c
     | .ok (q, dq) =>
@@ -316,7 +342,8 @@ def drainInputs (s : ChV2) (dq : List Queued) (layer : Nat) : Except Crash (ChV2
       | .ok (q, achs, dq) =>
         match processPresses { s with queue := q, active := achs } layer with
         | .error c => .error c
-        | .ok s => .ok (s, dq)
+        -- fix PENDING-4: the length is remembered AFTER events have left the queue
+        | .ok s => .ok ({ s with prevQueueLen := s.queue.length % 256 }, dq)
 
 /-- `ChordsV2::clear_released_chords` -/
 def clearReleased : List ActiveChord → List Queued → Except Crash (List ActiveChord × List Queued)
